@@ -1,10 +1,10 @@
-\* C14 quick tier: all block trees with <= 3 statements and nesting <= 3 over the shapes below, 8 styles each (every mode twice, every continuation twice);
+\* C14 quick tier: all block trees with <= 3 statements and nesting <= 3 over the shapes below plus 12 larger hand-picked trees, 8 styles each (every mode twice, every continuation twice);
 \* every rendering is exported (RENDER lines) with the value of the property (holds) for the replay.
 SPECIFICATION Spec
 CONSTANTS
   MaxN = 3
   MaxDepth = 3
-  TreeSource = "enum"
+  TreeSource = "enum+extra"
   StyleSet = "latin"
   Seed = 0
   ScanChars = TRUE
